@@ -77,6 +77,35 @@ def handle (op : String) (args res : List String) : Option Verdict :=
           | _, _ => .bad "shape")
        | _, _ => .bad "parse")
     | _ => .bad "parse"
+  | "mgrs_decode" => some <|
+    match args with
+    | [a] =>
+      (match parseS a with
+       | some bs =>
+         (match decode (bs.map UInt8.toNat), res with
+          | .error _, ["!E"] => .ok
+          | .error e, _ => .bad s!"MGRS::Decode: model rejects ({e}), impl={res}"
+          | .ok _, ["!E"] => .bad "MGRS::Decode: impl threw on a string the model splits"
+          | .ok p, [g, bl, e, n] =>
+            let eqb (r : String) (m : List Nat) : Bool := (parseS r).map (·.map UInt8.toNat) == some m
+            if eqb g p.gridzone && eqb bl p.block && eqb e p.easting && eqb n p.northing then .ok
+            else .bad s!"MGRS::Decode: impl={res} model=({p.gridzone},{p.block},{p.easting},{p.northing})"
+          | _, _ => .bad "shape")
+       | none => .bad "parse")
+    | _ => .bad "parse"
+  | "mgrs_selftest" => some (if res == ["ok"] then .ok else .bad "MGRS::Check() throws")
+  | "mgrs_cover" => some (.skip "coverage of the standard zones is judged by the harness (UTMUPS::Forward with mgrslimits, documented lettering)")
+  | "gconv_m" => some (.skip "the values GeoConvert prints are judged by the harness against the conversion classes")
+  | "gc_mgrs" => some <|
+    match args with
+    | [_, _, _, _, _, _, _, "E"] => .skip "the constructor / SetAltZone throws: C04"
+    | [_, _, _, _, _, _, pr, z, n, e, nn, la, az, ae, an] =>
+      (match parseI pr, parseI z, pb n, parseFs [e, nn, la, ae, an], parseI az, res with
+       | some prec, some zone, some northp, some [x, y, lat, ax, ay], some altz, [r1, r2] =>
+         both (strVerdict "GeoCoords::MGRSRepresentation" (mgrsRepresentation zone northp x y lat prec) [r1])
+              (strVerdict "GeoCoords::AltMGRSRepresentation" (mgrsRepresentation altz northp ax ay lat prec) [r2])
+       | _, _, _, _, _, _ => .bad "parse")
+    | _ => .bad "parse"
   | "mgrs_block" => some (.skip "block/band geography is judged by the harness oracle (samples through UTMUPS::Reverse)")
   | _ => none
 
